@@ -1,2 +1,226 @@
-(* C03 — lazy == eager (theorems follow) *)
-From GP Require Import Base PacketCore PacketScript.
+(* C01core — the framework half of C01: for EVERY decoder family the packet builder of
+   packet.go is total (with recovery on) and keeps the error-layer discipline.
+   Property theorems only; closed by lemmas of Proofs/PacketCoreProofs.v.
+   The per-layer half of C01 (renderers of the modelled layers) lives in other sub-checks.
+
+   How the real code bounds the recursion: it does not.  eagerPacket.NextDecoder
+   (packet.go:503-516) recurses on last.LayerPayload() until that payload is empty; nothing
+   in the framework forces the payload to shrink.  The hypothesis needed is therefore
+     progress fam : a decoder that continues (calls NextDecoder) has added a layer whose
+                    payload is strictly shorter than the data it was given
+   and the bound is recursion depth <= |data| + 1 (fuel S (length data)). *)
+From GP Require Import Base PacketCore PacketScript PacketCoreProofs.
+Open Scope Z_scope.
+
+(* ---- totality ---- *)
+
+(* NewPacket (eager) returns a packet: no panic escapes, the recursion stops within |data|+1 *)
+Theorem C01_total : forall fam data first o,
+  progress fam -> o_skiprec o = false ->
+  exists pe, new_eager (S (length data)) fam data first o = NewOk pe.
+Proof. intros fam data first o HP Hs. exact (new_eager_total fam HP data first o Hs). Qed.
+Print Assumptions C01_total.
+
+(* NewPacket with any Lazy setting returns a packet *)
+Theorem C01_total_new_packet : forall fam data first o,
+  progress fam -> o_skiprec o = false ->
+  exists pk, new_packet (S (length data)) fam data first o = NewOk pk.
+Proof.
+  intros fam data first o HP Hs. unfold new_packet. destruct (o_lazy o); [eauto|].
+  destruct (new_eager_total fam HP data first o Hs) as [pe He]. rewrite He. eauto.
+Qed.
+Print Assumptions C01_total_new_packet.
+
+(* every accessor program on the lazy packet terminates (each loop within |data|+2 steps)
+   and no call panics; empty input included *)
+Theorem C01_total_lazy : forall fam data first o prog,
+  progress fam -> o_skiprec o = false ->
+  exists lp rs,
+    lazy_program (S (S (length data))) fam (new_lazy data first o) prog = Some (lp, rs) /\
+    ~ In RPanic rs.
+Proof.
+  intros fam data first o prog HP Hs.
+  pose proof (progress_F6 fam HP) as HF.
+  destruct data as [|b rest].
+  - destruct (lazy_program_sim fam HF _ _ prog _ (new_lazy_inv_empty fam (S (length (@nil Z))) first o))
+      as [lp [A _]].
+    exists lp; eexists; split; [exact A | apply eager_program_no_panic].
+  - destruct (new_eager_total fam HP (b :: rest) first o Hs) as [pe He].
+    destruct (lazy_program_sim fam HF _ pe prog _ (new_lazy_inv fam _ (b :: rest) first o pe ltac:(discriminate) He))
+      as [lp [A _]].
+    exists lp; eexists; split; [exact A | apply eager_program_no_panic].
+Qed.
+Print Assumptions C01_total_lazy.
+
+(* accessors of an eager packet never panic (they are pure reads) *)
+Theorem C01_eager_accessors_total : forall p a, eager_access p a <> RPanic.
+Proof. exact eager_access_no_panic. Qed.
+
+(* ---- error-layer discipline ---- *)
+
+(* `discipline failed pe`:  failed <-> ErrorLayer <> nil;  not failed <-> ErrorLayer = nil;
+   when ErrorLayer = Some e: e is a DecodeFailure, it is the LAST layer and no other layer is a
+   DecodeFailure; when nil: no layer is a DecodeFailure.
+   `decode_failed r`: the outermost Decode call returned an error or panicked, i.e. (tail-call
+   shape) some decoder failed or panicked, or the framework refused the continuation
+   (ErrNoLayersAdded, nil decoder, type without decoder).
+   Hypotheses: no decoder calls SetErrorLayer (source fact F2: today one does) and no decoder
+   adds a *DecodeFailure of its own (source fact: no such literal in layers/). *)
+Theorem C01_error_discipline : forall fam n data first o p r pe,
+  no_seterr fam -> no_fail_layers fam ->
+  eager_decode n fam first data (empty_packet data o) = (p, r) ->
+  finish_decode (p, r) = NewOk pe ->            (* pe = what NewPacket returned *)
+  discipline (decode_failed r) pe.
+Proof.
+  intros fam n data first o p r pe H1 H2 HE HF.
+  eapply discipline_finish; [|exact HF].
+  eapply clean_eager_decode; eauto using clean_empty.
+Qed.
+Print Assumptions C01_error_discipline.
+
+(* the same for the lazy packet once Layers() (or String/Dump) has been called *)
+Theorem C01_error_discipline_lazy : forall fam n data first o p r pe prog lp rs,
+  no_seterr fam -> no_fail_layers fam -> F6 fam -> data <> [] ->
+  eager_decode n fam first data (empty_packet data o) = (p, r) ->
+  finish_decode (p, r) = NewOk pe ->
+  existsb forces_all prog = true ->
+  lazy_program (S n) fam (new_lazy data first o) prog = Some (lp, rs) ->
+  discipline (decode_failed r) (lp_p lp) /\ lp_p lp = pe.
+Proof.
+  intros fam n data first o p r pe prog lp rs H1 H2 HF Hd HE HFin Hall HL.
+  assert (He : new_eager n fam data first o = NewOk pe) by (unfold new_eager; rewrite HE; exact HFin).
+  destruct (lazy_program_sim fam HF n pe prog _ (new_lazy_inv fam n data first o pe Hd He)) as [lp' [A [_ C]]].
+  rewrite A in HL. inversion HL; subst lp'.
+  destruct (C (or_intror Hall)) as [_ EQ]. split; [|exact EQ]. rewrite EQ.
+  eapply C01_error_discipline; eauto.
+Qed.
+Print Assumptions C01_error_discipline_lazy.
+
+(* on empty input the lazy packet never decodes anything: no layers, no error layer *)
+Theorem C01_lazy_empty_input : forall fam n first o prog lp rs,
+  F6 fam ->
+  lazy_program (S n) fam (new_lazy [] first o) prog = Some (lp, rs) ->
+  p_layers (lp_p lp) = [] /\ p_failure (lp_p lp) = None /\ rs = eager_program (empty_packet [] o) prog.
+Proof.
+  intros fam n first o prog lp rs HF HL.
+  destruct (lazy_program_sim fam HF n _ prog _ (new_lazy_inv_empty fam n first o)) as [lp' [A [B _]]].
+  rewrite A in HL. inversion HL; subst.
+  destruct B as [k [_ Hc]]. pose proof (continue_ext _ _ _ _ Hc) as X.
+  destruct (ext_layers _ _ X) as [more Hm]. cbn in Hm.
+  destruct (p_layers (lp_p lp)); [|discriminate].
+  split; [reflexivity|]. split; [|reflexivity].
+  destruct (p_failure (lp_p lp)) as [e|] eqn:E; [|reflexivity].
+  pose proof (ext_failure _ _ X e E) as Y. cbn in Y. discriminate.
+Qed.
+Print Assumptions C01_lazy_empty_input.
+
+(* Without any hypothesis on SetErrorLayer: whenever decoding failed, the LAST layer is a
+   DecodeFailure and ErrorLayer() is non-nil. *)
+Theorem C01_error_general : forall fam n data first o p r pe,
+  eager_decode n fam first data (empty_packet data o) = (p, r) ->
+  finish_decode (p, r) = NewOk pe -> decode_failed r = true ->
+  p_failure pe <> None /\ exists before f, p_layers pe = before ++ [f] /\ l_fail f = true.
+Proof. intros. eapply general_finish; eauto. Qed.
+Print Assumptions C01_error_general.
+
+(* ---- a decoder that DOES call SetErrorLayer and continues (layers/sctp.go:
+   decodeSCTPChunkTypeUnknown): the discipline fails, by documented design of that layer.
+   Script: 10 = common header, 11 = chunk decoder choosing by the first byte (mod 3):
+   0 -> ordinary chunk, 1 -> unknown chunk (AddLayer; SetErrorLayer; continue), 2 -> error. ---- *)
+Definition sctp_like : script_table :=
+  [ (10, [mkVariant [mkLspec 10 2 PRest] [SAdd 0; STrans 0] (Next 11) None]);
+    (11, [mkVariant [mkLspec 20 2 PRest] [SAdd 0] (Next 11) None;
+          mkVariant [mkLspec 21 2 PRest] [SAdd 0; SErrL 0] (Next 11) None;
+          mkVariant [] [STrunc] Fail None]) ].
+
+(* (a) nothing fails, yet ErrorLayer() is non-nil, is not a DecodeFailure and is not last *)
+Theorem C01_seterror_refuted :
+  exists data o p r pe e,
+    eager_decode 10 (family_of sctp_like) 10 data (empty_packet data o) = (p, r) /\
+    finish_decode (p, r) = NewOk pe /\
+    decode_failed r = false /\ p_failure pe = Some e /\ l_fail e = false /\
+    last (p_layers pe) e <> e /\ ~ discipline (decode_failed r) pe.
+Proof.
+  exists [0;0; 1;9; 0;9], (mkOpts false false false false false).
+  eexists; eexists; eexists; eexists.
+  split; [vm_compute; reflexivity|]. split; [vm_compute; reflexivity|].
+  split; [reflexivity|]. split; [vm_compute; reflexivity|]. split; [reflexivity|].
+  split; [vm_compute; discriminate|].
+  intros [_ [D2 _]]. destruct D2 as [D2 _]. specialize (D2 eq_refl). vm_compute in D2. discriminate.
+Qed.
+
+(* (b) a later chunk fails: the final DecodeFailure is last, but ErrorLayer() is still the
+   unknown chunk: a DecodeFailure layer that is not the error layer *)
+Theorem C01_seterror_then_failure_refuted :
+  exists data o p r pe e f,
+    eager_decode 10 (family_of sctp_like) 10 data (empty_packet data o) = (p, r) /\
+    finish_decode (p, r) = NewOk pe /\
+    decode_failed r = true /\ p_failure pe = Some e /\ l_fail e = false /\
+    last (p_layers pe) e = f /\ l_fail f = true /\ f <> e.
+Proof.
+  exists [0;0; 1;9; 2;9], (mkOpts false false false false false).
+  eexists; eexists; eexists; eexists; eexists.
+  split; [vm_compute; reflexivity|]. split; [vm_compute; reflexivity|].
+  split; [reflexivity|]. split; [vm_compute; reflexivity|]. split; [reflexivity|].
+  split; [vm_compute; reflexivity|]. split; [reflexivity|]. discriminate.
+Qed.
+
+(* ---- non-vacuity of the discipline theorem: a scripted family without SetErrorLayer whose
+   third decoder panics after adding a layer; the panic is recovered into a last DecodeFailure ---- *)
+Definition ex_fam2 : family := fun t =>
+  if t =? 10 then Some (fun data o =>
+    match data with
+    | [] => ([], Fail)
+    | b :: rest => let l := mkLayer 10 [b] rest false in ([Add l; SetLink l], Next 11)
+    end)
+  else if t =? 11 then Some (fun data o =>
+    match data with
+    | [] => ([], Fail)
+    | b :: rest => ([Add (mkLayer 11 [b] rest false)], if b =? 0 then Ret else PanicT)
+    end)
+  else None.
+
+Lemma ex_fam2_progress : progress ex_fam2.
+Proof.
+  intros t d data o acts t' EF ED. unfold ex_fam2 in EF.
+  destruct (t =? 10).
+  - inversion EF; subst d. destruct data as [|b rest]; inversion ED; subst.
+    eexists; split; [reflexivity|]. cbn. lia.
+  - destruct (t =? 11); [|discriminate]. inversion EF; subst d.
+    destruct data as [|b rest]; [inversion ED|]. destruct (b =? 0); inversion ED.
+Qed.
+
+Lemma ex_fam2_no_seterr : no_seterr ex_fam2.
+Proof.
+  intros t d data o acts term EF ED. unfold ex_fam2 in EF.
+  destruct (t =? 10).
+  - inversion EF; subst d. destruct data; inversion ED; reflexivity.
+  - destruct (t =? 11); [|discriminate]. inversion EF; subst d.
+    destruct data; inversion ED; reflexivity.
+Qed.
+
+Lemma ex_fam2_no_fail : no_fail_layers ex_fam2.
+Proof.
+  intros t d data o acts term EF ED. unfold ex_fam2 in EF.
+  destruct (t =? 10).
+  - inversion EF; subst d. destruct data; inversion ED; reflexivity.
+  - destruct (t =? 11); [|discriminate]. inversion EF; subst d.
+    destruct data; inversion ED; reflexivity.
+Qed.
+
+Example C01core_nonvacuous :
+  progress ex_fam2 /\ no_seterr ex_fam2 /\ no_fail_layers ex_fam2 /\
+  exists p pe,
+    eager_decode 4 ex_fam2 10 [5;6;7] (empty_packet [5;6;7] (mkOpts false false true false false)) = (p, DPanic) /\
+    finish_decode (p, DPanic) = NewOk pe /\
+    p_failure pe = Some (mk_failure [7]) /\
+    p_layers pe = [mkLayer 10 [5] [6;7] false; mkLayer 11 [6] [7] false; mk_failure [7]] /\
+    (* and a clean run has no error layer *)
+    exists pe2, new_eager 4 ex_fam2 [5;0;7] 10 (mkOpts false false false false false) = NewOk pe2 /\
+                p_failure pe2 = None /\ length (p_layers pe2) = 2%nat.
+Proof.
+  split; [exact ex_fam2_progress|]. split; [exact ex_fam2_no_seterr|]. split; [exact ex_fam2_no_fail|].
+  eexists; eexists. split; [vm_compute; reflexivity|]. split; [vm_compute; reflexivity|].
+  split; [reflexivity|]. split; [reflexivity|].
+  eexists. split; [vm_compute; reflexivity|]. split; reflexivity.
+Qed.
